@@ -166,6 +166,7 @@ func (x *Exec) atExit(st *State, fr *Frame, rets []Val, pos token.Pos) {
 	for i, en := range x.con.Checks {
 		lenv := *env
 		lenv.fr = fr
+		lenv.localsFirst = true // a named result variable means the variable, resultN the returned value
 		g := x.evalSpec(en.E, &lenv)
 		lbl := en.Label
 		if lbl == "" {
@@ -200,15 +201,9 @@ func (x *Exec) atExit(st *State, fr *Frame, rets []Val, pos token.Pos) {
 // handle errgroup worker return
 func (x *Exec) foldGroupError(st *State, nf *Frame, ret Val) {
 	g := nf.vals[egGroupKey]
-	key := "eg:" + g.Ptr.Root
-	old, ok := st.ghost[key]
-	if !ok {
-		old = "ErrNil"
-	}
-	n := x.freshName("egerr")
-	st.declare(n, "Err")
-	st.assume(sx("=", n, ite(sx("=", old, "ErrNil"), ret.T, old)))
-	st.ghost[key] = n
+	h := st.heap("G_egerr", "(Array Int Err)")
+	old := sx("select", h, g.Ptr.Root)
+	x.setHeap(st, "G_egerr", "(Array Int Err)", sx("store", h, g.Ptr.Root, ite(sx("=", old, "ErrNil"), ret.T, old)))
 }
 
 // sortStable models sort.Stable / sort.Sort on a slice wrapped in an interface whose
